@@ -1122,9 +1122,9 @@ def c04(ctx):
         p4 = read_ndjson(pats("plain", 4))
         spaces = [("plainctx", variants(pcf, 0.3), t3, "fi,ci,sp,co,rows"), ("plainctx_rp", variants(pcf, 0.2), t2, "rp"),
                   ("plain123", variants(plain, 0.3), t3, "fi,ci,sp,co,rows"), ("plain_rp", variants(plain, 0.3), t2, "rp"),
-                  ("plain4", variants(sample(ctx, p4, 15000), 0.2), t3, "fi,ci,sp,co,rows"),
-                  ("random_plain", variants(randgen.random_pats(ctx.rng, "plain", 15000, depth=4, max_nodes=16), 0.2), t3, "fi,ci,sp,co,rows"),
-                  ("random_plain_rp", variants(randgen.random_pats(ctx.rng, "plain", 5000, depth=4, max_nodes=16), 0.2), t2, "rp")]
+                  ("plain4", variants(sample(ctx, p4, 5000), 0.2), t3, "fi,ci,sp,co,rows"),
+                  ("random_plain", variants(randgen.random_pats(ctx.rng, "plain", 5000, depth=4, max_nodes=16), 0.2), t3, "fi,ci,sp,co,rows"),
+                  ("random_plain_rp", variants(randgen.random_pats(ctx.rng, "plain", 2000, depth=4, max_nodes=16), 0.2), t2, "rp")]
     for name, recs, tpath, parts in spaces:
         iterp.run_iters(ctx, name, recs, tpath, "x4", excl, regex=True, parts=parts)
     probe_known(ctx, "x4", kind="iters")
